@@ -125,69 +125,63 @@ theorem mem_refNames_ne_nil : ∀ (fuel : Nat) (t name : Bytes), name ∈ refNam
 
 /-! ### templates without references -/
 
-/-- where the formatter's regex finds no reference, `regexp.Expand`'s `extract` finds none either,
-    and the next byte is not `$` -/
-theorem refMatchAt_none (rest : Bytes) (h : refMatchAt rest = none) :
-    rxExtract rest = none ∧ rest.head? ≠ some cDollar := by
-  have hsub : ∀ l : Bytes, l.takeWhile isRefByte = [] → l.takeWhile isWordByte = [] := by
-    intro l hl
-    cases l with
-    | nil => rfl
-    | cons x xs =>
-      simp only [List.takeWhile_cons] at hl ⊢
-      split at hl
-      · cases hl
-      · rename_i hx
-        have : isWordByte x = false := by
-          unfold isRefByte at hx; simp at hx; simp [hx.1]
-        simp [this]
+theorem isRefByte_eq : isRefByte = isWordByte := rfl
+
+/-- where the formatter's regex finds no reference, `regexp.Expand`'s `extract` finds none either
+    (since the repair both use the same name class `[a-zA-Z0-9_]`; the next byte may well be `$`) -/
+theorem refMatchAt_none (rest : Bytes) (h : refMatchAt rest = none) : rxExtract rest = none := by
   unfold refMatchAt at h
+  rw [isRefByte_eq] at h
   cases rest with
   | nil => simp [rxExtract]
   | cons b r =>
     by_cases hb : (b == cLBrace) = true
     · simp only [hb, if_true] at h
-      have hg : (r.takeWhile isRefByte).isEmpty = true := by
-        cases hgg : (r.takeWhile isRefByte).isEmpty with
+      have hg : (r.takeWhile isWordByte).isEmpty = true := by
+        cases hgg : (r.takeWhile isWordByte).isEmpty with
         | true => rfl
         | false =>
           rw [hgg] at h; simp only [Bool.false_eq_true, if_false] at h
           split at h
           · split at h <;> cases h
           · cases h
-      have hg' : r.takeWhile isRefByte = [] := by simpa using hg
-      have hbb : b = cLBrace := by simpa using hb
-      constructor
-      · simp [rxExtract, hb, hsub r hg']
-      · subst hbb; simp [cLBrace, cDollar]
+      have hg' : r.takeWhile isWordByte = [] := by simpa using hg
+      simp [rxExtract, hb, hg']
     · have hb' : (b == cLBrace) = false := by simpa using hb
       simp only [hb', Bool.false_eq_true, if_false] at h
-      have hg : ((b :: r).takeWhile isRefByte).isEmpty = true := by
-        cases hgg : ((b :: r).takeWhile isRefByte).isEmpty with
+      have hg : ((b :: r).takeWhile isWordByte).isEmpty = true := by
+        cases hgg : ((b :: r).takeWhile isWordByte).isEmpty with
         | true => rfl
         | false =>
           rw [hgg] at h; simp only [Bool.false_eq_true, if_false] at h
           split at h
           · split at h <;> cases h
           · cases h
-      have hg' : (b :: r).takeWhile isRefByte = [] := by simpa using hg
-      constructor
-      · simp [rxExtract, hb', hsub _ hg']
-      · intro hd
-        have : b = cDollar := by simpa using hd
-        subst this
-        simp [isRefByte] at hg'
+      have hg' : (b :: r).takeWhile isWordByte = [] := by simpa using hg
+      simp [rxExtract, hb', hg']
 
+theorem hasDollarDollar_cons (a : UInt8) (t : Bytes) (h : hasDollarDollar (a :: t) = false) :
+    hasDollarDollar t = false := by
+  cases t with
+  | nil => rfl
+  | cons b r => simp only [hasDollarDollar, Bool.or_eq_false_iff] at h; exact h.2
+
+/-- Where the formatter's regex finds no reference the documented syntax copies the template —
+    provided it contains no `$$`: that is an escape for `$` in the documented syntax, while the
+    (repaired) formatter's regex finds no reference in it and copies both bytes. (Before the repair
+    `$$` was a reference named `$`, so `findRefs … = []` excluded it.) -/
 theorem findRefs_nil_expandSpec (caps : List Bytes) :
-    ∀ (fuel : Nat) (t : Bytes), findRefs fuel t = [] → expandSpec caps fuel t = t := by
+    ∀ (fuel : Nat) (t : Bytes), findRefs fuel t = [] → hasDollarDollar t = false →
+      expandSpec caps fuel t = t := by
   intro fuel
   induction fuel with
-  | zero => intro t _; cases t <;> rfl
+  | zero => intro t _ _; cases t <;> rfl
   | succ fuel ih =>
-    intro t h
+    intro t h hdd
     cases t with
     | nil => rfl
     | cons b rest =>
+      have hdd' := hasDollarDollar_cons b rest hdd
       by_cases hb : (b == cDollar) = true
       · simp only [findRefs, hb, if_true] at h
         cases hm : refMatchAt rest with
@@ -195,19 +189,18 @@ theorem findRefs_nil_expandSpec (caps : List Bytes) :
         | none =>
           rw [hm] at h
           simp only at h
-          obtain ⟨hx, hd⟩ := refMatchAt_none rest hm
+          have hx := refMatchAt_none rest hm
           have hbb : b = cDollar := by simpa using hb
           cases rest with
           | nil => simp [expandSpec, hbb]
           | cons c rest' =>
             have hc : (c == cDollar) = false := by
-              cases hcc : (c == cDollar) with
-              | false => rfl
-              | true => exfalso; apply hd; simp at hcc; simp [hcc]
-            simp [expandSpec, hc, hx, ih _ h, hbb]
+              simp only [hasDollarDollar, hb, Bool.true_and, Bool.or_eq_false_iff] at hdd
+              exact hdd.1
+            simp [expandSpec, hc, hx, ih _ h hdd', hbb]
       · have hb' : (b == cDollar) = false := by simpa using hb
         simp only [findRefs, hb', Bool.false_eq_true, if_false] at h
-        simp [expandSpec, hb', ih rest h]
+        simp [expandSpec, hb', ih rest h hdd']
 
 theorem compile_no_refs (tmpl : Bytes) (n : Nat) (caps : List Bytes) (h : findRefs tmpl.length tmpl = []) :
     (compileTemplate tmpl n).format caps = some tmpl := by
@@ -229,5 +222,23 @@ theorem findRefs_no_dollar : ∀ (fuel : Nat) (t : Bytes), cDollar ∉ t → fin
         | false => rfl
         | true => exfalso; apply h.1; simp at hbb; exact hbb.symm
       simp [findRefs, hb, ih rest h.2]
+
+/-- a template without `$` has no `$$` -/
+theorem hasDollarDollar_no_dollar : ∀ (t : Bytes), cDollar ∉ t → hasDollarDollar t = false := by
+  intro t
+  induction t with
+  | nil => intro _; rfl
+  | cons a t ih =>
+    intro h
+    simp only [List.mem_cons, not_or] at h
+    cases t with
+    | nil => rfl
+    | cons b r =>
+      have hb : (a == cDollar) = false := by
+        cases hbb : (a == cDollar) with
+        | false => rfl
+        | true => exfalso; apply h.1; simp at hbb; exact hbb.symm
+      simp only [hasDollarDollar, hb, Bool.false_and, Bool.false_or]
+      exact ih h.2
 
 end SE
